@@ -5,6 +5,7 @@
 (*   {op:"example",  schema, env, opt, bytes, value, parsed}          C15                    *)
 (*   {op:"regex_example", re, example}                                C18                    *)
 (*   {op:"lenunit", c, oks}                                           C02 (unit of lengths)  *)
+(*   {op:"biglen", n, oks}                                            C02 (lengths beyond 255 / 65535) *)
 (*   {op:"check", schema, env, opt, ok}                               C04 / C08 (differential tier) *)
 EXTENDS Integers, Sequences, TLC, Json, Chk
 CONSTANT TraceFile
@@ -71,6 +72,8 @@ Problem(e) ==
              SumTo[i \in 0..Len(e.c)] == IF i = 0 THEN 0 ELSE SumTo[i - 1] + U8(e.c[i])
              units == {Len(e.c), SumTo[Len(e.c)]}
          IN IF \E L \in units : \A k \in DOMAIN e.oks : e.oks[k] = (k - 1 = L) THEN "ok" ELSE "length-unit-inconsistent"
+    [] e.op = "biglen" ->               \* a string of n ASCII letters against {minLength: k, maxLength: k} for k = n-1, n, n+1
+         IF e.oks = <<FALSE, TRUE, FALSE>> THEN "ok" ELSE "length-of-a-long-string"
     [] e.op = "regex_example" -> IF Search(e.re, e.example) THEN "ok" ELSE "example-does-not-match"
     [] e.op = "example" ->
          IF J!RefVerdict(J!RefRun(J!RefInit, e.bytes, FALSE)) # "accept" THEN "malformed"
